@@ -8,7 +8,7 @@ from . import lincommon as lc
 
 PROP = "C14"
 HOSTILE = ('scale', 'special')
-MONITORS = ("WF",)
+MONITORS = ("WF", "FORM")
 ANCHORS = [("factor.py", "ConjugateFactor._integrate_log_factor"),
            ("measure.py", "GaussianMeasure.integrate_log_factor"),
            ("conditional.py", "ConditionalGaussianPDF.integrate_log_conditional"),
@@ -87,6 +87,11 @@ def run_logfactor(cell, rec, seed):
                     np.abs(nf) * np.abs(tu.mu), -1) + np.abs(bf)
                 got = lc.call(rec, "integrate(log u)",
                               lambda: u.integrate("log u(x)", factor=f), info)
+                if not np.all(np.abs(lm) < 600.0):
+                    # the total mass is not representable in float64 (hostile scales): the
+                    # linear-domain integral has no finite value to compare
+                    rec.count("mass_not_representable")
+                    continue
                 if got is not None:
                     rec.close("expected log factor", got, mass * val,
                               ns=mass * (1.0 + comp) * (1.0 + np.abs(lm)) + 1e-280, detail=info,
